@@ -149,14 +149,14 @@ def sched_stages(prop, quick_cases, size, floors=None, nontrivial_floor=200, tho
 SPECS = {
     "C01": {
         **_meta('Generated-input search: thousands of (kind, parameter, string-set) cases per run, every member and ID of each case checked in both directions against the reference set on the built and both loaded objects; failures shrink to a replay file. Exploration is the right level: the property is universally quantified over inputs and 13 implementations, no finite model exists.', 'property-based testing (rapidcheck), reference-model round trip + bijection, ASan'),
-        "stages": (lambda tier: dict_stages(ALL, 60, 12)(tier) + scale_stage(ALL, 2)(tier) + hugelcp_stage(ALL, 6)(tier)),
+        "stages": (lambda tier: dict_stages(ALL, 60, 12)(tier) + scale_stage(ALL, 2)(tier) + hugelcp_stage(ALL, 4)(tier)),
         "rule": "case = (kind, legal parameters, string set S, object state) decoded from rapidcheck bytes; for every "
                 "state (fresh, generic-loaded, own-loaded) all members (sample of 300 above that) are located, extracted "
                 "and compared with the reference set, and all IDs are extracted, looked up in S and located back "
                 "(bijection). non-trivial = n>=2 and >=2 buckets (front coding) / n>=2 (others), conclusive and not "
                 "tainted; distinct = 64-bit hash of (kind, params, S, op bytes). stage 'scale': 2 cases per kind with 140 000-280 000 strings "
                 "(1-4 MB of text, default MEMALLOC, bucket size mostly 2-4, i.e. more than 2^16 buckets), 300 members / IDs sampled per state. "
-                "stage 'hugelcp': 6 cases per kind with 2-6 strings of 16-50 KB whose shared prefix is 16383..16512, 32767..32800, 49152 or ~20000 bytes",
+                "stage 'hugelcp': 4 cases per kind with 2-6 strings of 16-70 KB whose shared prefix is 16383..16512, 32767..32800, 49152, 65535..65600, ~20000 or ~70000 bytes",
         "assumptions": DICT_ASSUME,
     },
     "C02": {
@@ -208,7 +208,7 @@ SPECS = {
     "C07": {
         **_meta('Everything the other dictionary drivers do (all sweeps, all states, abandoned iterators, repeated saves), plus run-time MEMALLOC 1..32768 and bucket sizes 0/1, executed under ASan (recover mode) + UBSan array-bounds/null with fatal signals and a CPU watchdog caught per call; every sanitizer report, signal or escaped exception is an event.', 'property-based testing + sanitizers as oracle (ASan/UBSan reports, caught fatal signals, CPU-time watchdog on tiny inputs)'),
         "stages": (lambda tier: dict_stages(ALL, 40, 8, floors={"memalloc_small": 200, "n_mult_bucket": 100, "maxlen_ge128": 100})(tier)
-                   + scale_stage(ALL, 2)(tier) + hugelcp_stage(ALL, 4)(tier)
+                   + scale_stage(ALL, 2)(tier) + hugelcp_stage(ALL, 3)(tier)
                    + [{"name": "perturb", "binary": "dict_plain", "param": "perturb", "plan": dict_plan(ALL, 20 * (4 if tier == "thorough" else 1), 4 * (4 if tier == "thorough" else 1)),
                        "label_floors": {"c07_perturb_pair": 300}, "nontrivial_floor": 100}]),
         "rule": "case as C01 plus MEMALLOC class and bucket clamp; non-trivial = n==1, n multiple of the bucket size, a string "
